@@ -178,6 +178,36 @@ def run_slow_handlers(ctx):
                         f"pings={pings} pongs(arrival)={pongs[:6]} report={rep}; trace …{r['trace'][-240:]}", size=appcheck.size_of(sc))
 
 
+def run_transient_write_failure(ctx):
+    """ONE ping write fails (a momentarily full send buffer with a socket timeout set, ENOBUFS, a one-off SSL error): the
+    connection survives it, so the keepalive does too — pings keep going out at the interval for as long as the connection is
+    up.  No ping timeout configured (so the missed ping cannot be mistaken for a silent peer).  Real runs + oracle."""
+    scs = []
+    for iv in (2 * TPS, 3 * TPS, 5 * TPS):
+        for kth in (0, 1, 2):
+            for ssl in (False, True):
+                total = kth + 5
+                # the server answers every ping it gets and sends some data; the connection stays up to the horizon
+                sc = ka_scenario(iv, None, [1] * total, data=(iv // 2, 3 * iv + 7), npings=total, ssl=ssl)
+                sc["write_fails_once"] = [0, (kth + 2) * iv]      # the (kth+1)-th ping is due at (kth+2)*iv
+                sc["kind"] = "ka-transient-write-failure"
+                sc["tag"] += f":ping#{kth}-write-fails-once"
+                scs.append(sc)
+    real = appcheck.run_real_many(scs)
+    for sc, r in zip(scs, real):
+        pings, pls, rep = observe(r["trace"])
+        iv = sc["iv"]
+        t_fail = sc["write_fails_once"][1]
+        ctx.case(key=sc["tag"], nontrivial=True, cls="ka-transient-write-failure:" + ("tls" if sc.get("ssl") else "plain"))
+        later = [t for t in pings if t > t_fail]
+        due = [t for t in range(t_fail + iv, sc["horizon"] - 2, iv)]
+        ended = any(x in r["trace"] for x in (":sockClosed:", ":cb:on_close:", ":ret:", ":raised:"))
+        if not ended and len(later) < len(due):
+            ctx.violate("periodic", "ping-thread-gone-after-one-failed-write", sc,
+                        f"pings at {due} (every {iv} ticks after the one failed write at {t_fail}; the connection is up to the horizon {sc['horizon']})",
+                        f"pings at {pings}; trace …{r['trace'][-240:]}", size=appcheck.size_of(sc))
+
+
 def run_external_reconnect(ctx):
     """external dispatcher + reconnect: EVERY connection of the run that falls silent is given up within two timeouts of its
     first unanswered ping — the second and the third as well as the first (the periodic check belongs to the run)."""
@@ -448,7 +478,7 @@ def run(ctx):
     ctx.rule = ("validation grid 11 x 11 (negative, zero, None, fractional); accepted (iv, to) in {1..6}x{1..5} s with pong "
                 "latency patterns {1 tick, to-1, to, to+1, never}^2 (thorough ^3), data frames at critical instants, tie "
                 "orders; late unsolicited pongs; silent-from-ping-k; random fractional settings; connection end and "
-                "reconnect with keepalive on; the ping thread descheduled right after a ping was written (oracle only) (non-trivial = at least one ping was sent)")
+                "reconnect with keepalive on; the ping thread descheduled right after a ping was written (oracle only); one ping write failing transiently (oracle only) (non-trivial = at least one ping was sent)")
     run_args(ctx)
     for d in appcheck.corpus("C16"):
         run_keepalive(ctx, [d["input"]])
@@ -457,6 +487,7 @@ def run(ctx):
     run_external(ctx)
     run_external_reconnect(ctx)
     run_slow_handlers(ctx)
+    run_transient_write_failure(ctx)
     lifecycle(ctx)
     run_rerun_settings(ctx)
 
